@@ -494,3 +494,48 @@ Proof.
       try (vm_compute in Hb; discriminate); lia.
   - intro H. vm_compute in H. discriminate.
 Qed.
+
+(* ------------------------------------------------------------------------------------ *)
+(* non-matching grids: supports exact, column sums within 1e-12 *)
+Lemma cert_support_sound : forall S, cert_support S = true ->
+    incidence_wf (s_nc S) (s_nf S) (s_div S) /\
+    coupling_support Q (s_nc S) (s_nf S) (s_nm S) (s_div S) (s_pp S) (s_ps S).
+Proof.
+  intros S H. unfold cert_support in H.
+  repeat (apply andb_true_iff in H; destruct H as [H ?]).
+  rename H into H1, H2 into H2', H1 into H3, H0 into H4. rename H2' into H2.
+  rewrite forallb_forall in H1, H2, H3, H4.
+  split; [split|split].
+  - intros t Ht. specialize (H1 t Ht). apply andb_true_iff in H1. destruct H1 as [A B].
+    apply Nat.ltb_lt in A. apply Nat.ltb_lt in B. split; assumption.
+  - intros f Hf. apply face_ok_wf. apply H4. apply in_seq. lia.
+  - intros t Ht. specialize (H3 t Ht).
+    apply andb_true_iff in H3. destruct H3 as [H3 C].
+    apply andb_true_iff in H3. destruct H3 as [A B].
+    apply Nat.ltb_lt in A. apply Nat.ltb_lt in C. repeat split; assumption.
+  - intros t Ht. specialize (H2 t Ht). apply andb_true_iff in H2. destruct H2 as [A B].
+    apply Nat.ltb_lt in A. apply Nat.ltb_lt in B. split; assumption.
+Qed.
+
+Lemma certified_tol : forall S (acc a lamf lams : nat -> Q),
+    cert_ok_tol S = true ->
+    (forall f, (f < s_nf S)%nat -> is_boundary (s_div S) f = true -> a f == 0) ->
+    qtotal (s_nc S) (qresidual2 (s_div S) (s_pp S) (s_ps S) acc a lamf lams (fun _ => 0))
+    == qtotal (s_nc S) acc + qtotal (s_nm S) (fun m => qpcolsum (s_pp S) m * lamf m)
+       - qtotal (s_nm S) (fun m => qpcolsum (s_ps S) m * lams m)
+    /\ forall m, (m < s_nm S)%nat ->
+                 Qabs (qpcolsum (s_pp S) m - 1) <= 1 # 1000000000000 /\
+                 Qabs (qpcolsum (s_ps S) m - 1) <= 1 # 1000000000000.
+Proof.
+  intros S acc a lamf lams H Ha. unfold cert_ok_tol in H.
+  apply andb_true_iff in H. destruct H as [Hs Hc].
+  destruct (cert_support_sound S Hs) as [Hi Hsup]. split.
+  - unfold qtotal, qresidual2.
+    apply (deficit Q 0 1 Qplus Qmult Qminus Qopp Qeq Q_Setoid Q_eqe Qsrt
+                   (s_nc S) (s_nf S) (s_nm S) (s_div S) (s_pp S) (s_ps S)
+                   acc a lamf lams (fun _ => 0) Hi Hsup Ha). intros; reflexivity.
+  - intros m Hm. rewrite forallb_forall in Hc.
+    assert (Hin : In m (seq 0 (s_nm S))) by (apply in_seq; lia).
+    specialize (Hc m Hin). apply andb_true_iff in Hc. destruct Hc as [A B].
+    unfold near_one in A, B. apply Qle_bool_iff in A. apply Qle_bool_iff in B. split; assumption.
+Qed.
